@@ -144,7 +144,8 @@ def install_featurizer():
                     states_for_separate_model=list(self.states_for_separate_model))
 
     def grab_active(self, a, k, ret):
-        return dict(fid=_feat_serial(self), input_index=list(a[0].index), n=len(a[0]), out=ret.copy())
+        exp = [c for c in getattr(self, "expanded_fixed_effects", []) if c in a[0].columns]
+        return dict(fid=_feat_serial(self), input_index=list(a[0].index), n=len(a[0]), out=ret.copy(), input_expanded=a[0][exp].copy())
 
     def grab_holdout(self, a, k, ret):
         return dict(fid=_feat_serial(self), input=a[0].copy(), out=ret.copy())
